@@ -701,17 +701,20 @@ fn scenarios(tier: &str) -> Vec<(&'static str, usize, usize, usize)> {
         ("c1.c2.c3/p/n/s", 2, 0, 25000),
         ("c1.s.n/c2.p.s/c3.n/s.p", 2, 0, 25000),
         ("c1.c2.c3.p/s.t.p/n.s/p.n.t", 2, 1, 25000),
-        // 5 threads (main + 4 children), thorough tier only
+        // 5 threads (main + 4 children), thorough tier only; sizes measured with `h_c04 dfs`
         // all five registered, then a non-last one leaves (swap-remove with 5 entries) while the last one requests
-        ("c1.c2.c3.c4/-/n.p/t.p/s", 1, 0, 25000),
-        ("c1.c2.c3.c4/-/n.p/t.p/s", 2, 0, 25000),
+        // (136898 schedules: exhaustive within the bound)
+        ("c1.c2.c3.c4/-/n.p/t.p/s", 1, 0, 140000),
         // spawn tree (main -> 1, 2; 1 -> 3; 3 -> 4), two concurrent requesters (main and the youngest thread)
-        ("c1.c2.s/c3.p/n.t/c4.p/s", 1, 0, 25000),
+        // (bound 1: 6969 schedules, exhaustive; bound 2 with a spurious wake-up: capped)
+        ("c1.c2.s/c3.p/n.t/c4.p/s", 1, 0, 10000),
         ("c1.c2.s/c3.p/n.t/c4.p/s", 2, 1, 25000),
         // spawn chain main -> 1 -> 2 -> 3 -> 4: every add_thread / early exit races with the two requesters
-        ("c1.p.s/c2.n/c3.p/c4.t/s2", 2, 0, 25000),
-        // two requesters among the children, a child that leaves at once, poll / native call / heap access around them
-        ("c1.c2.c3.t/c4.p.s/n.t/-/s.p", 1, 1, 25000),
+        // (exhaustive would be 136885 schedules: capped)
+        ("c1.p.s/c2.n/c3.p/c4.t/s2", 2, 0, 50000),
+        // two requesters among the children (1 and 4), a child that leaves at once (3, a non-last entry), poll /
+        // native call / heap access around them (59863 schedules: exhaustive within the bound)
+        ("c1.c2.t/c3.p.s/c4.n/-/s.p", 1, 0, 60000),
     ]);
     v
 }
